@@ -452,6 +452,16 @@ def run(res, b, tier, seed):
         cases.append(pipeline.Case("ms%d" % i, {"main.tsh": msrc.encode(), "lib.tsh": LIB.encode()},
                                    meta=dict(expected_out=["200 11 AB xx"], expected_status=0, src=msrc, original=MAIN2 % dict(v="total", f="stride"),
                                              renaming="main-file identifiers spelled %s, %s next to std/strings (its parameter, local and function names)" % (v, f), reserved=[])))
+    # two different files with the SAME base name and equally spelled top-level names: what a name means does not depend on how the
+    # files are called either (round 8: C10-A)
+    import os as _os
+    import sys as _sys
+    _sys.path.insert(0, _os.path.dirname(__file__))
+    import c09
+    for name, files, want in c09.same_base_name_cases():
+        cases.append(pipeline.Case("sb-" + name, {k: v.encode() for k, v in files.items()},
+                                   meta=dict(expected_out=want.split("\n")[:-1], expected_status=0, src="\n".join("// file %s\n%s" % kv for kv in files.items()),
+                                             original=files["main.tsh"], renaming="equally spelled names in two files of the same base name", reserved=[])))
     # one spelling for a local of a function, a local of the function it calls, a parameter and a global defined after both:
     # four different variables whatever the spelling is, in particular when it looks like a name of the back-ends
     SCOPES = ('func inner(%(p)s string) string {\n\t%(n)s := "inner"\n\treturn %(n)s + %(p)s\n}\nfunc outer() string {\n\t%(n)s := "outer"\n\tx := inner("!")\n'
@@ -495,8 +505,21 @@ def run(res, b, tier, seed):
             if c.meta["cmd"] != r0:
                 fails.append((c, "batch-behaviour", dict(original_under_cmd_model=str(r0)[:400], renamed_under_cmd_model=str(c.meta["cmd"])[:400],
                                                          names_equal_ignoring_case=c.meta.get("clash") or orig[0].meta.get("clash"))))
+    # Batch target, directed: the programs with a hand-computed result (one spelling in several scopes, names shaped like the back-end's
+    # own) must give that result under the cmd model too (round 8: C10-B, Batch locals named <function>_<local>)
+    directed = [c for c in cases if c.id.startswith(("corpus-", "sc")) and c.out.get("BATCH", ("", ""))[0] == "OK"]
+    dsims = common.pmap_proc(_sim, [bytes.fromhex(c.out["BATCH"][1]).decode("utf-8", "replace") for c in directed], chunksize=4)
+    ndirected = 0
+    for c, r in zip(directed, dsims):
+        if r[0] == "stuck":
+            continue                                   # files / programs: outside the cmd model
+        ndirected += 1
+        want = "".join(l + "\n" for l in c.meta["expected_out"])
+        if r[0] != "ok" or r[1] != want or r[2] != c.meta["expected_status"]:
+            fails.append((c, "batch-behaviour-directed", dict(expected_stdout=want, under_cmd_model=str(r)[:600])))
     res.coverage.update(dict(
         evaluations=len(cases),
+        batch_directed=ndirected,
         distinct_nontrivial=len({c.meta["src"] for c in cases}),
         rule="generated programs (functions, slices, strings) x injective renamings of all their variables, parameters and functions: (a) into neutral legal "
              "identifiers incl. names differing only in letter case, (b) one or two identifiers into the pool of names the bash back-end reserves for itself "
